@@ -631,6 +631,7 @@ def oracle(ctx: Ctx, case, m, before, tol=TOL_ORACLE, payload=None, note="") -> 
     texts = [f"{to_text(l)} = {to_text(r)}" for (l, r) in case["teqs"] + case["meqs"]]
     codes = [compile_text(t) for t in texts]
     auto_lhs = {l[1] for (l, r) in case["autos"]}
+    collapsed_vids = set()
     for vid, v in enumerate(m._variants):
         levels = {n: v.levels[q] for n, q in name_to_qid.items()}
         changes = {n: v.changes[q] for n, q in name_to_qid.items()}
@@ -642,6 +643,7 @@ def oracle(ctx: Ctx, case, m, before, tol=TOL_ORACLE, payload=None, note="") -> 
         collapsed = any(kinds[n] == "l" and levels.get(n) is not None and abs(levels[n]) < 1e-6 for n in kinds)
         if collapsed:
             ctx.count("degenerate_collapsed_log_level(dates 0,1 only)")
+            collapsed_vids.add(vid)
         for text, code in zip(texts, codes):
             for t in ([0, 1] if collapsed else DATES):
                 r, scale = oracle_residual(code, kinds, levels, changes, t)
@@ -691,6 +693,8 @@ def oracle(ctx: Ctx, case, m, before, tol=TOL_ORACLE, payload=None, note="") -> 
         with contextlib.redirect_stdout(io.StringIO()):
             _, info = m.check_steady(return_info=True, when_fails="silent", unpack_singleton=False)
         for vid, i in enumerate(info):
+            if vid in collapsed_vids:
+                continue        # a log-variable level of (nearly) 0 gives log -> -inf / NaN cells in create_steady_array
             d = np.abs(np.array(i["discrepancies"], dtype=float))
             if d.size and not (np.nanmax(d) <= max(1e-7, 10 * tol)) or np.isnan(d).any():
                 ok = False
@@ -1415,9 +1419,9 @@ def search(ctx: Ctx, seeds):
         c = s.get("case") if isinstance(s, dict) else None
         if isinstance(c, dict) and "sess_seed" in c:
             run_session(ctx, gen_session(c["sess_seed"]))
-    run_sessions(ctx, 300, tag="search-sessions")
+    run_sessions(ctx, 200, tag="search-sessions")
     rng = ctx.rng.fork("search")
-    for i in range(1500):
+    for i in range(900):
         if len(ctx.failures) >= 3:
             break
         seed = rng.next()
